@@ -17,7 +17,7 @@ ASSUMPTIONS = [
     "generators stay inside the hypotheses of known findings: given arguments of partial applications are effect free (D9), every binding is used (D17), binder names are fresh (D18, D19), fewer than 100 inference variables per definition (D12); integers stay small (no wrap-around)",
 ]
 
-KNOWN = {"d9_partial_effects": "D9", "d17_unused_binding": "D17", "d12_many_typevars": "D12", "d18_match_var_shadow": "D18", "d19_rebinding": "D19"}
+KNOWN = {"d9_partial_effects": "D9", "d17_unused_binding": "D17", "d12_many_typevars": "D12", "d18_match_var_shadow": "D18", "d19_rebinding": "D19", "d20_unit_binding": "D20"}
 
 
 def run(ctx):
